@@ -62,7 +62,7 @@ def judge(res, r, sig0, what, detail):
         add_violation(res, dict(sig0, kind="odd-exit", rc=r.rc), f"{what}: exit status {r.rc} without an mlr diagnostic", dict(detail, stderr=r.err[:1000]))
         return False
     if r.rc == 1 and b"mlr" not in r.stderr:
-        add_violation(res, dict(sig0, kind="no-diagnostic"), f"{what}: exit 1 with no `mlr:` diagnostic: {r.err[:200]!r}", dict(detail, stderr=r.err[:1000]))
+        add_violation(res, dict(sig0, kind="no-diagnostic", msg=re.sub(r"\d+", "N", r.err.strip().split("\n")[0][:80])), f"{what}: exit 1 with no `mlr:` diagnostic: {r.err[:200]!r}", dict(detail, stderr=r.err[:1000]))
         return False
     return True
 
@@ -495,6 +495,9 @@ def pathological_programs():
     P.append(("huge-array-index", "$y = [1,2,3][9223372036854775807]; $z = [1,2,3][-9223372036854775808]; m[9223372036854775807] = 1"))
     P.append(("huge-slice", '$y = "abc"[-9223372036854775808:9223372036854775807]; $z = [1,2][0:9223372036854775807]'))
     P.append(("auto-extend-huge", "a = [1]; a[1000000000000] = 2"))
+    P.append(("typed-udf-body-fails", "func f(): int { str s = 1; return 1 } $y = f()"))
+    P.append(("typed-udf-arg-fails", "func f(int i): int { return i } $y = f(\"abc\")"))
+    P.append(("typed-subr-body-fails", "subr p(str s) { int i = s; print i } call p(\"abc\")"))
     P.append(("positional-out-of-range", "$[[999]] = 1; $[[[999]]] = 2; $[[0]] = 3; $[[-1]] = 4; $y = $[[999]] . $[[[0]]]"))
     P.append(("format-values-hostile", '$y = fmtnum(3, "%") . fmtnum(3, "%999999999d") . fmtnum(3, "%s%s%s") . fmtifnum("x", "%*d") . fmtnum(3.1, "%.9999999f")'))
     P.append(("regex-hostile", '$y = sub("abc", "(", "x") . gsub("abc", "[", "x") . regextract("abc", "\\\\") . ("abc" =~ "a{99999}") . matchx("a", "(?P<") ' if False else
